@@ -157,14 +157,19 @@ Variables tau gamma tmin : Q.
 Variable tmax : xtime.
 Variable full : bool.
 
-Definition event (t : Q) (trec ttot : Q) (s : gst) (k : gst -> samp simout) : samp simout :=
+(* one jump: which event happens and the state after it *)
+Definition liftr {A} (r : result A) : samp A := match r with Ok a => Ret a | Err e => Fail e end.
+
+Definition event_st (t : Q) (trec ttot : Q) (s : gst) : samp gst :=
   Flip (trec / ttot)
     (Choose (weighted (infs s)) (kl_cands (infs s)) (fun c =>
-       lift (keynode c) (fun u =>
-       lift (match kind with SIR => sir_recover g full t u s | SIS => sis_recover g full t u s end) k)))
+       liftr (rbind (keynode c) (fun u =>
+         match kind with SIR => sir_recover g full t u s | SIS => sis_recover g full t u s end))))
     (Choose (weighted (links s)) (kl_cands (links s)) (fun c =>
-       lift (keypair c) (fun uv =>
-       lift (transmit g kind full t (fst uv) (snd uv) s) k))).
+       liftr (rbind (keypair c) (fun uv => transmit g kind full t (fst uv) (snd uv) s)))).
+
+Definition event (t : Q) (trec ttot : Q) (s : gst) (k : gst -> samp simout) : samp simout :=
+  bind (event_st t trec ttot s) k.
 
 Fixpoint loop (fuel : nat) (t : Q) (s : gst) : samp simout :=
   (* invariant of the call: the rates of [s] are current and the delay to [t] has NOT been drawn yet *)
